@@ -93,6 +93,9 @@ def lin(e):
         return lin(e[1])
     if k == 'field' and e[2] == '0' and e[1][0] == 'binop':
         return lin(e[1])
+    if k == 'field' and e[2] == '0' and e[1][0] == 'variant' and e[1][2] in ('Ok', 'Some'):
+        # payload of an explicit `match x { Ok(v) => v, Err(e) => return Err(e) }`: the same value `x?` yields
+        return lin(('try', e[1][1]))
     if k == 'binop' and e[1].replace('WithOverflow', '') == 'Add':
         (ca, va), (cb, vb) = lin(e[2]), lin(e[3])
         if ca is None or cb is None or (va and vb):
@@ -118,6 +121,16 @@ def messages(F):
     return out
 
 
+MSG_API = {
+    # role -> (parameter type patterns in order, return type pattern): what a message type's inherent function looks like
+    'check': (None, r'^std::result::Result<usize, error::Error>$'),
+    'from': ([r'^&std::io::Cursor<&\[u8\]>$'], r'^messages::'),
+    'validate': (None, r'^std::result::Result<\(\), error::Error>$'),
+    'from_vec': ([r'^&(std::vec::Vec<bool>|\[bool\])$'], r'^messages::'),
+    'to_vec': (None, r'^std::result::Result<std::vec::Vec<bool>, error::Error>$'),
+}
+
+
 def impl_method(F, ty, name, trait=None):
     for f in F.user_fns():
         if f.self_ty == ty and f.name == name and f.kind == 'AssocFn':
@@ -125,6 +138,17 @@ def impl_method(F, ty, name, trait=None):
                 return f
             if trait and (f.trait or '').endswith(trait):
                 return f
+    if trait is None and name in MSG_API:
+        # renamed: the inherent function of this type with the role's signature
+        ptys, rty = MSG_API[name]
+        cands = []
+        for f in F.user_fns():
+            if f.self_ty == ty and f.kind == 'AssocFn' and not f.trait and re.search(rty, f.locals[0]['ty']):
+                ts = [t for n, l, t in C.params_of(f)]
+                if ptys is None or (len(ts) == len(ptys) and all(re.search(p, t) for p, t in zip(ptys, ts))):
+                    cands.append(f)
+        if len(cands) == 1:
+            return cands[0]
     raise AnchorMissing('%s::%s not found' % (ty, name))
 
 
